@@ -47,6 +47,13 @@ CLAIMED["C06"] = ("DESIGN.md §4 C06",
     "cannot be re-rooted; the body served is the buffer read from the opened file, Content-Type is from_extension of that path; MIME table agrees with the "
     "registry; directories redirect with 301 + uri/; index file order. Symlinks and OS path quirks are not decided.")
 
+CLAIMED["C08"] = ("DESIGN.md §4 C08",
+    "R-LOCK guard typestate on drop-elaborated MIR, R-UNWIND (drop guard on the unwind path), R-DIVERGE (thread bodies without a reachable return) + R-FLOW of JoinHandles, R-MUSTPASS (task call, restart), who-may-call (Sender clone)",
+    "Decides on the worker closure, recovery closure, PanicMarker::drop and ThreadPool::{execute,stop,drop}: a received task is called on every path and at "
+    "most once per receive; no queue-lock guard is live at the task call; unwinding out of a task drops a PanicMarker that reports its id only when "
+    "panicking; every reported id leads to a restarted worker stored at the same index; Err/Shutdown/poison leave the loop; the task Sender is unique; no "
+    "join on a thread that cannot return, none while holding a lock the joined thread takes. Interleavings themselves are not explored.")
+
 NOT_YET = {}
 
 NOT_APPLICABLE = {
